@@ -123,7 +123,7 @@ func (a *Analysis) ruleT2T6() {
 					if c.Callee == "invoke:hash.Write" || c.Callee == "crypto/sha256.Sum256" {
 						if b, ok := c.Args[0].(BytesV); ok {
 							if b.Obj != nil {
-								if bc, ok := c.State[b.Obj].(BufC); ok {
+								if bc, ok := c.State[b.Obj].(BufC); ok && bc.B.Pending == nil {
 									b = bc.B
 								}
 							}
